@@ -88,6 +88,38 @@ def spec_orfs(codes, basic, ini, using, minlen, strands):
     return out
 
 
+import re
+_LINE = {k: re.compile(rb"^\s*" + pat + rb"\s*=\s*(\S+)\s*$") for k, pat in
+         (("aas", rb"[Aa][Aa]s"), ("starts", rb"[Ss]tarts"), ("b1", rb"[Bb]ase1"), ("b2", rb"[Bb]ase2"), ("b3", rb"[Bb]ase3"))}
+
+
+def py_read(buf):
+    """independent reading of an NCBI genetic-code text: (basic[64], init[64]) or None if malformed"""
+    lines = [l for l in buf.split(b"\n") if l.strip(b" \t\r\f\v") and not l.lstrip(b" \t\r\f\v").startswith(b"#")]
+    if len(lines) < 5: return None
+    toks, start = [], None
+    for key, l in zip(("aas", "starts", "b1", "b2", "b3"), lines):
+        m = _LINE[key].match(l)
+        if not m or len(m.group(1)) != 64: return None
+        if start is None: start = m.start(1)
+        elif m.start(1) != start: return None
+        toks.append(m.group(1).decode("latin1"))
+    aas, starts, b1, b2, b3 = toks
+    basic, ini, seen = [None] * 64, [None] * 64, [0] * 64
+    for p in range(64):
+        a = aas[p].upper()
+        if a not in "ACDEFGHIKLMNPQRSTVWY*": return None
+        cod = 0
+        for b in (b1[p], b2[p], b3[p]):
+            b = b.upper().replace("U", "T")
+            if b not in "ACGT": return None
+            cod = cod * 4 + "ACGT".index(b)
+        if starts[p] not in "-mM": return None
+        basic[cod] = AMINO.index(a); ini[cod] = 0 if starts[p] == "-" else 1; seen[cod] += 1
+    if min(seen) == 0 or STOP not in basic or any(x not in basic for x in range(20)): return None
+    return basic, ini
+
+
 def unhex(s):
     return b"" if s == "-" else bytes.fromhex(s)
 
@@ -102,7 +134,7 @@ class C17(Prop):
     lean_exe = "c17_driver"
     harness = "h_gencode.c"
     theorems = ["EaselModel.Props.C17." + t for t in (
-        "tables_pinned", "table_ids", "no_initiator_stop", "expand_is_iupac", "translation_spec", "translation_shared",
+        "tables_pinned", "table_ids", "no_initiator_stop", "read_write_roundtrip", "expand_is_iupac", "translation_spec", "translation_shared",
         "initiator_spec", "initiator_settings", "window_split_invariant", "orf_stream_eq_spec")]
     claimed = True
     technique = ("Lean 4 proof: built-in tables regenerated from the tree = hand-pinned NCBI tables by `decide`; general theorems (any table, any "
@@ -148,6 +180,7 @@ class C17(Prop):
             for init in ("table", "any", "aug"):
                 ops += ["table id=%d init=%s" % (tid, init), "triplets id=%d init=%s" % (tid, init)]
             ops += ["write id=%d init=table comment=1" % tid, "write id=%d init=any comment=0" % tid]
+            ops += ["readwrite id=%d init=%s comment=%d" % (tid, init, cm) for init in ("table", "any", "aug") for cm in (0, 1)]
             out.append({"name": "table%d" % tid, "ops": ops, "sticky": 0})
         def orf(dna, **kw):
             d = dict(id=1, init="any", using=0, minlen=0, strand="b", cuts="-"); d.update(kw)
@@ -186,6 +219,45 @@ class C17(Prop):
                 if 0 <= pos <= L - 3: s[pos:pos + 3] = list(cod)
         if rng.random() < 0.2: s = [c.lower() if rng.random() < 0.5 else c for c in s]
         return "".join(s)
+
+    def rand_ncbi_text(self, rng, tid):
+        """an NCBI genetic-code file: the pinned table, mostly valid, with layout variations and typical damage"""
+        aas, starts = PINNED[tid]
+        b1 = "".join("TCAG"[p // 16] for p in range(64)); b2 = "".join("TCAG"[(p % 16) // 4] for p in range(64))
+        b3 = "".join("TCAG"[p % 4] for p in range(64))
+        rows = [["AAs", aas], ["Starts", starts], ["Base1", b1], ["Base2", b2], ["Base3", b3]]
+        r = rng.random()
+        if r < 0.5: pass
+        elif r < 0.56: i = rng.randrange(64); rows[0][1] = aas[:i] + rng.choice("ACDEFGHIKLMNPQRSTVWY*XBZJOU-?ac") + aas[i + 1:]
+        elif r < 0.62: i = rng.randrange(64); rows[1][1] = starts[:i] + rng.choice("Mm-*x ") + starts[i + 1:]
+        elif r < 0.68: k = rng.randrange(2, 5); i = rng.randrange(64); rows[k][1] = rows[k][1][:i] + rng.choice("TCAGUtcagNn-") + rows[k][1][i + 1:]
+        elif r < 0.73: k = rng.randrange(5); rows[k][1] = rows[k][1][:rng.choice([0, 1, 63, 62])]
+        elif r < 0.77: k = rng.randrange(5); rows[k][1] += rng.choice("AM-T")
+        elif r < 0.81: del rows[rng.randrange(5)]
+        elif r < 0.85: i, j = rng.sample(range(5), 2); rows[i], rows[j] = rows[j], rows[i]
+        elif r < 0.89: rows[0][1] = aas.replace("*", rng.choice("WQ"))          # no stop codon
+        elif r < 0.93: rows[0][1] = aas.replace(rng.choice("WMCYHFDEKNQ"), "L")   # an amino acid never encoded
+        elif r < 0.96: rows[2][1] = b2                                            # codons repeated / missing
+        else: rows[rng.randrange(len(rows))][0] = rng.choice(["AA", "Start", "Base", "Base4", "xAAs", "AAs:"])
+        pad = rng.choice([None, None, 0, 2, 5])
+        lines = []
+        if rng.random() < 0.3: lines.append("# %d some table" % tid)
+        for i, (kw, data) in enumerate(rows):
+            if rng.random() < 0.1: lines.append(rng.choice(["", "   ", "# comment", "\t#x"]))
+            if pad is None:
+                lead = {"AAs": "    ", "Starts": "  ", "Base1": "  ", "Base2": "  ", "Base3": "  "}.get(kw, "  ")
+                sep = {"AAs": "  = ", "Starts": " = "}.get(kw, "  = ")
+            else:
+                width = 8 + pad
+                lead = " " * (width - len(kw)) if len(kw) <= width else ""
+                sep = rng.choice([" = ", " = "])
+                if rng.random() < 0.06: sep = rng.choice(["= ", " =", "=", "  =  "])   # breaks the column alignment
+            if rng.random() < 0.15: kw = kw[0].swapcase() + kw[1:]
+            if rng.random() < 0.03: kw = kw.upper()
+            tail = rng.choice(["", "", "", " ", "  \t", "\r"])
+            lines.append(lead + kw + sep + data + tail)
+        txt = "\n".join(lines) + ("\n" if rng.random() < 0.9 else "")
+        return txt.encode("latin1")
 
     def rand_cuts(self, rng, L):
         if L < 3: return "-"
@@ -228,6 +300,8 @@ class C17(Prop):
                 if rng.random() < 0.3:      # same sequence, another split: the ORF list must be identical
                     ops.append("orfs id=%d init=%s using=%d minlen=%d strand=%s dna=%s cuts=%s" % (
                         tid, init, using, minlen, strand, dna.encode().hex() or "-", self.rand_cuts(rng, L)))
+            if rng.random() < 0.35:
+                ops.append("read hex=%s" % self.rand_ncbi_text(rng, tid).hex())
             if rng.random() < 0.2:
                 ops.append("codon id=%d init=%s a=%d b=%d c=%d" % (tid, rng.choice(["table", "any", "aug"]), rng.randrange(18), rng.randrange(18), rng.randrange(18)))
             out.append({"name": "gen%d" % i, "ops": ops, "sticky": 0})
@@ -249,6 +323,15 @@ class C17(Prop):
                 got = l.split("=", 1)[1] if "=" in l else ""
                 if got != ",".join(map(str, IDS)):
                     return Failure("monitor", "the library offers tables %s, pinned set is %s" % (got, IDS))
+                continue
+            if name == "read":
+                want = py_read(unhex(d["hex"]))
+                if want is None:
+                    if l.startswith("ok"): return Failure("monitor", "esl_gencode_Read accepted a malformed NCBI table")
+                else:
+                    r = kv(l)
+                    if not l.startswith("ok") or list(unhex(r["basic"])) != want[0] or list(unhex(r["init"])) != want[1]:
+                        return Failure("monitor", "esl_gencode_Read of a well-formed NCBI table: %s" % l[:50])
                 continue
             tid = int(d.get("id", 1)); init = d.get("init", "table")
             if tid not in PINNED:
@@ -277,6 +360,9 @@ class C17(Prop):
                                 return Failure("monitor", "table %d init=%s codon %s%s%s: translation %d initiator %d, specification %d %d" % (
                                     tid, init, NUC[a], NUC[b], NUC[c], tr[k], inn[k], wa, wi))
                             k += 1
+            elif name == "readwrite":
+                if not l.startswith("ok same id=-1 desc=-"):
+                    return Failure("monitor", "table %d (%s) written in NCBI form and read back: %s" % (tid, init, l[:60]))
             elif name == "codon":
                 r = kv(l); wa, wi = translate(basic, ini, int(d["a"]), int(d["b"]), int(d["c"]))
                 if (int(r["aa"]) % 256) != wa or (int(r["init"]) != 0) != (wi != 0):
